@@ -139,6 +139,11 @@ pub fn gen(seed: u64) -> TScenario {
             chunks = vec![b"slow\n".to_vec(), b"still slow\n".to_vec(), b"done\n".to_vec()];
             secs = vec![3, 5, 100];
         }
+        if !chunks.is_empty() && r.pct(70) {
+            // a tag no description or other output can contain: must reach the terminal exactly once
+            chunks.insert(0, format!("#s{}#\n", id).into_bytes());
+            secs.insert(0, 0);
+        }
         steps.push(TStep {
             id,
             desc: if r.pct(15) { String::new() } else { boundary_text(&mut r, cols as usize) },
@@ -557,30 +562,15 @@ fn judge(sc: &TScenario, panicked: bool) -> TResult {
             }
             hay.windows(needle.len()).filter(|w| *w == needle).count()
         };
-        let outs: Vec<(usize, Vec<u8>)> = sc
-            .steps
-            .iter()
-            .filter(|s| executed.contains(&s.id))
-            .map(|s| {
-                let mut o: Vec<u8> = s.chunks.concat();
-                if !o.is_empty() && !o.ends_with(b"\n") {
-                    o.push(b'\n');
-                }
-                (s.id, o)
-            })
-            .collect();
-        for (id, o) in &outs {
-            if o.len() < 12 {
+        for st in sc.steps.iter().filter(|s| executed.contains(&s.id)) {
+            let tag = format!("#s{}#\n", st.id).into_bytes();
+            if st.chunks.first() != Some(&tag) {
                 continue;
             }
-            // skip outputs that are not distinctive (contained in another task's output or in a description)
-            if outs.iter().any(|(j, p)| j != id && count(p, o) > 0) || sc.steps.iter().any(|s| count(s.desc.as_bytes(), &o[..o.len() - 1]) > 0) {
-                continue;
-            }
-            let n = count(&persistent, o);
+            let n = count(&persistent, &tag);
             bump(&mut stats, "probe.task_output_checked_once");
             if n != 1 {
-                v.push(("task-output-shown-once".into(), format!("the {} bytes printed by the command of step {} appear {} times on the terminal", o.len(), id, n)));
+                v.push(("task-output-shown-once".into(), format!("the output of the command of step {} (tagged {:?}) appears {} times on the terminal", st.id, String::from_utf8_lossy(&tag).trim(), n)));
                 break;
             }
         }
